@@ -116,14 +116,17 @@ Theorem C12_sim_functions_cover_the_model :
   length sim_functions = 37%nat /\ forallb (fun f => str_mem f sim_functions) modelled_functions_listed = true
   /\ forallb (fun fa => str_mem (fst fa) sim_functions || str_mem (fst fa) spelling_oracle_only) gen_integer_args = true.
 Proof. exact sim_functions_cover. Qed.
+Print Assumptions C12_sim_functions_cover_the_model.
 
 (* the relation is an equivalence (so it composes along a script) *)
 Theorem C12_vsim_equivalence :
   (forall v, vsim v v) /\ (forall a b, vsim a b -> vsim b a) /\ (forall a b c, vsim a b -> vsim b c -> vsim a c).
 Proof. exact (conj vsim_refl (conj vsim_sym vsim_trans)). Qed.
+Print Assumptions C12_vsim_equivalence.
 Theorem C12_hsim_equivalence :
   (forall h, hsim h h) /\ (forall a b, hsim a b -> hsim b a) /\ (forall a b c, hsim a b -> hsim b c -> hsim a c).
 Proof. exact (conj hsim_refl (conj hsim_sym hsim_trans)). Qed.
+Print Assumptions C12_hsim_equivalence.
 
 (* Python's == on numbers does not see the spelling of EITHER operand ... *)
 Theorem C12_number_equality_respects_spelling : forall a a' b b', nsim a a' -> nsim b b' -> num_eq a b = num_eq a' b'.
@@ -141,6 +144,7 @@ Theorem C12_validation_respects_spelling : forall h h' specs args args', hsim h 
   Forall (fun sp => int_bounds sp = true) specs -> Forall2 vsim args args' ->
   vrsim (args_validate h specs args) (args_validate h' specs args').
 Proof. intros h h' specs args args' H B. exact (args_validate_sim h h' specs H B args args'). Qed.
+Print Assumptions C12_validation_respects_spelling.
 
 (* THE THEOREM.  (The premise `In f sim_functions` is the coverage datum; for any other name both sides are LOutOfModel.) *)
 Theorem C12_respelling_simulation : forall f args args' h h', In f sim_functions ->
@@ -171,18 +175,21 @@ Print Assumptions C12_history_simulation.
 (* ---- non-vacuity: a = [1, "a", 2, [3]], o = {"k": 3, "a": a} once with ints and once with floats; evaluated on both sides *)
 Example C12_sim_heaps_related_not_equal : hsim heap_int heap_flt /\ heap_int <> heap_flt /\ respell_heap heap_int = heap_flt.
 Proof. exact (conj heaps_related (conj heaps_differ heap_flt_is_respelt)). Qed.
+Print Assumptions C12_sim_heaps_related_not_equal.
 Example C12_sim_arrayIndexOf_needle_respelt :
   lib (U "arrayIndexOf") [VArr 0%nat; F 2] heap_int = (LOk (I 2), heap_int) /\
   lib (U "arrayIndexOf") [VArr 0%nat; I 2] heap_flt = (LOk (I 2), heap_flt) /\
   lib (U "arrayLastIndexOf") [VArr 0%nat; F 2] heap_int = (LOk (I 2), heap_int) /\
   lib (U "arrayIndexOf") [VArr 0%nat; VArr 3%nat] (heap_int ++ [CArr [F 3]]) = (LOk (I 3), heap_int ++ [CArr [F 3]]).
 Proof. exact indexOf_both. Qed.
+Print Assumptions C12_sim_arrayIndexOf_needle_respelt.
 Example C12_sim_arrayPush_both :
   lib (U "arrayPush") [VArr 0%nat; I 7] heap_int
     = (LOk (VArr 0%nat), [CArr [I 1; VStr (U "a"); I 2; VArr 1%nat; I 7]; CArr [I 3]; CObj [(U "k", I 3); (U "a", VArr 0%nat)]]) /\
   lib (U "arrayPush") [VArr 0%nat; F 7] heap_flt
     = (LOk (VArr 0%nat), [CArr [F 1; VStr (U "a"); F 2; VArr 1%nat; F 7]; CArr [F 3]; CObj [(U "k", F 3); (U "a", VArr 0%nat)]]).
 Proof. exact push_both. Qed.
+Print Assumptions C12_sim_arrayPush_both.
 Example C12_sim_get_and_failures_both :
   lib (U "arrayGet") [VArr 0%nat; F 0] heap_int = (LOk (I 1), heap_int) /\
   lib (U "arrayGet") [VArr 0%nat; I 0] heap_flt = (LOk (F 1), heap_flt) /\
@@ -193,6 +200,7 @@ Example C12_sim_get_and_failures_both :
   lib (U "arraySet") [VArr 0%nat; F 9; I 5] heap_int = (LArgsErr VNull, heap_int) /\
   lib (U "arraySet") [VArr 0%nat; I 9; F 5] heap_flt = (LArgsErr VNull, heap_flt).
 Proof. exact get_both. Qed.
+Print Assumptions C12_sim_get_and_failures_both.
 Example C12_sim_history_both :
   Forall2 opsim (hist (I 4) (F 4)) (hist (F 4) (I 4)) /\
   run_ops (hist (I 4) (F 4)) ([VArr 0%nat], heap_int)
@@ -200,6 +208,7 @@ Example C12_sim_history_both :
   run_ops (hist (F 4) (I 4)) ([VArr 0%nat], heap_flt)
     = Some ([VArr 0%nat; VArr 3%nat; VArr 3%nat; I 4; F 4], heap_flt ++ [CArr [F 1; VStr (U "a"); F 2; VArr 1%nat]]).
 Proof. exact (conj hist_related history_both). Qed.
+Print Assumptions C12_sim_history_both.
 
 (* ---- refuted strengthenings ------------------------------------------------------------------------------------------- *)
 (* with `=` instead of `~`: arrayGet(a, 0) returns the int 1 from the int heap and the float 1.0 from the float heap *)
@@ -207,6 +216,7 @@ Example C12_identical_results_refuted :
   hsim heap_int heap_flt /\
   fst (lib (U "arrayGet") [VArr 0%nat; I 0] heap_int) <> fst (lib (U "arrayGet") [VArr 0%nat; I 0] heap_flt).
 Proof. exact identical_results_refuted. Qed.
+Print Assumptions C12_identical_results_refuted.
 (* a function that PRINTS a number (none is in Model/LibSeq.v; stringNew lives in Model/LibCore.v): -0.0 is an integral
    float whose int spelling is 0, but stringNew(-0.0) = "-0" and stringNew(0) = "0" (same for arrayJoin / jsonStringify /
    systemLog in the implementation).  Every other integral float below 1e16 prints exactly as its int. *)
@@ -217,6 +227,7 @@ Example C12_stringNew_neg_zero_refuted : forall cfg cb w,
   fst (BS.Model.LibCore.libcore cfg cb (U "stringNew") [BS.Model.Interp.VNum (NFlt (S754_zero true))] w)
     = BS.Model.Interp.LVal (BS.Model.Interp.VStr (U "-0")).
 Proof. intros cfg cb w. exact (conj neg_zero_is_a_spelling_of_zero (stringNew_neg_zero_refuted cfg cb w)). Qed.
+Print Assumptions C12_stringNew_neg_zero_refuted.
 Theorem C12_value_string_integral_float : forall s m e z, integral (NFlt (S754_finite s m e)) z -> Z.abs z < 10 ^ 16 ->
   BS.Model.Arith.num_to_str (NFlt (S754_finite s m e)) = BS.Model.Arith.ARes (Z_to_str z).
 Proof. exact num_to_str_integral. Qed.
